@@ -19,30 +19,56 @@ def c14_sortkey_total_order(run, w, rule_id="C14-R5"):
   R = run.rule(rule_id, "SortKey.__lt__: verdicts inside the column loop only under strict "
                "comparisons, ties fall through to later columns and finally to the row id", floor=3)
   fn = w.fn("sort_key.make_sort_key.SortKey.__lt__")
-  flow = H.Flow(fn)
+  flow = H.Flow(fn, cfg=H.all_raise_cfg(fn))     # the fallback comparison lives in a handler
   loops = [s for s in fn.node.body if isinstance(s, ast.For)]
   if len(loops) != 1:
     raise AnalysisError("SortKey.__lt__: expected one loop over the sort columns")
   lp = loops[0]
-  tg = lp.target
-  if not (isinstance(tg, ast.Tuple) and len(tg.elts) == 3 and isinstance(tg.elts[2], ast.Tuple)):
-    raise AnalysisError("SortKey.__lt__: loop target is not (a, b, (col, sign))")
-  a, b = text(tg.elts[0]), text(tg.elts[1])
-  sign = text(tg.elts[2].elts[1])
+  lid = [n.id for n in flow.cfg.nodes if n.stmt is lp][0]
+  it = H.resolve(flow, lp.iter, lid) if isinstance(lp.iter, ast.Name) else lp.iter
+  if not (isinstance(it, ast.Call) and dotted(it.func) == "zip" and len(it.args) == 3):
+    raise AnalysisError("SortKey.__lt__: the loop is not over zip(<values>, <values>, <spec>)")
+
+  def role(e, nid):
+    """'a' / 'b' / 'sign' / 'col' when e is that component of the zipped triple (however it was
+    taken apart: nested unpacking, indexing, a local), else None."""
+    try:
+      rs = flow.roots(e, nid)
+    except AnalysisError:
+      return None
+    kinds = set()
+    for r in rs:
+      if not (r.kind == "call" and r.node is it and r.path[:1] == (("elem",),)):
+        return None
+      kinds.add({(("idx", 0),): "a", (("idx", 1),): "b", (("idx", 2), ("idx", 1)): "sign",
+                 (("idx", 2), ("idx", 0)): "col"}.get(tuple(r.path[1:])))
+    return kinds.pop() if len(kinds) == 1 else None
+
   in_loop = {id(x) for x in ast.walk(lp)}
   cases = H.return_cases(fn.node)
   inner = [c for c in cases if id(c.stmt) in in_loop]
   outer = [c for c in cases if id(c.stmt) not in in_loop]
   if len(inner) < 2:
     raise AnalysisError("SortKey.__lt__: fewer than two verdicts inside the loop")
-  def side(e):
+  def side(e, depth=0):
     """'a' / 'b' when the expression is built from one of the two compared values only."""
-    names = {x.id for x in ast.walk(H.inline(flow, e, stop=(a, b))) if isinstance(x, ast.Name)}
-    if a in names and b not in names:
-      return a
-    if b in names and a not in names:
-      return b
-    return None
+    got = set()
+    for x in ast.walk(e):
+      if isinstance(x, ast.Name) and isinstance(x.ctx, ast.Load) and id(x) in flow._node_of:
+        r = role(x, flow._node_of[id(x)])
+        if r in ("a", "b"):
+          got.add(r)
+        elif r is None and x.id in flow.defs:
+          # a local computed from a or b (the fallback keys)
+          defs = [flow.cfg.nodes[d].stmt for d in flow.defs[x.id]]
+          for d in defs:
+            if isinstance(d, ast.Assign) and len(d.targets) == 1 and \
+                isinstance(d.targets[0], ast.Name) and depth < 4:
+              s_ = side(d.value, depth + 1)
+              got.add(s_ if s_ else "?")
+            else:
+              got.add("?")
+    return got.pop() if len(got) == 1 else None
   for case in inner:
     ok = False
     why = "verdict is not directly under a strict comparison of the two values"
@@ -55,14 +81,19 @@ def c14_sortkey_total_order(run, w, rule_id="C14-R5"):
         l, rr = side(t.left), side(t.comparators[0])
         if isinstance(t.ops[0], ast.Gt):
           l, rr = rr, l
-        if {l, rr} == {a, b}:
-          strict.append((t, 1 if l == a else -1))
+        if {l, rr} == {"a", "b"}:
+          strict.append((t, 1 if l == "a" else -1))
     if len(strict) == 1:
       want = strict[0][1]
-      v = H.inline(flow, case.value) if case.value is not None else None
-      ok = isinstance(v, ast.Compare) and len(v.ops) == 1 and isinstance(v.ops[0], ast.Eq) and \
-          {text(v.left), text(v.comparators[0])} == {sign, str(want)}
-      why = None if ok else "sign applied inconsistently (expected %s == %d)" % (sign, want)
+      rn = [m.id for m in flow.cfg.nodes if m.stmt is case.stmt][0]
+      v = H.resolve(flow, case.value, rn) if case.value is not None else None
+      ok = isinstance(v, ast.Compare) and len(v.ops) == 1 and isinstance(v.ops[0], ast.Eq)
+      if ok:
+        pair = [v.left, v.comparators[0]]
+        signs = [x for x in pair if role(x, flow._node_of.get(id(x), rn)) == "sign"]
+        consts = [x for x in pair if text(x) == str(want)]
+        ok = len(signs) == 1 and len(consts) == 1
+      why = None if ok else "sign applied inconsistently (expected <sign> == %d)" % want
     run.ob(R, fn.qualname, "return %s under %s" % (short(case.value, 40),
                                                     short(strict[0][0], 40) if strict
                                                     else "<nothing>"),
@@ -73,9 +104,7 @@ def c14_sortkey_total_order(run, w, rule_id="C14-R5"):
       fn.node.body[-1] is outer[0].stmt
   run.ob(R, fn.qualname, "return self.row_id < other.row_id", "rows equal in every sort column "
          "are ordered by ascending row id", ok, fi=fn.fi)
-  it = lp.iter
-  ok = isinstance(it, ast.Call) and dotted(it.func) == "zip" and \
-      [text(x) for x in it.args[:2]] == ["self.values", "other.values"]
+  ok = [text(H.inline(flow, x, lid)) for x in it.args[:2]] == ["self.values", "other.values"]
   run.ob(R, fn.qualname, "for (a, b, (_, sign)) in zip(self.values, other.values, spec)",
          "columns are compared in sort-spec order", ok, fi=fn.fi, nontrivial=False)
 
